@@ -777,7 +777,7 @@ pub fn catalogue() -> Vec<Entry> {
                     (_, None) => {
                         exp.insert(*k, if c.p1 == 2 { val + 100 } else { *val });
                     }
-                    (_, Some(acc)) => *acc = *acc * 10 + val,
+                    (_, Some(acc)) => *acc = acc.wrapping_mul(10).wrapping_add(*val),
                 }
             }
             let mut pos = 0i64;
@@ -791,15 +791,15 @@ pub fn catalogue() -> Vec<Entry> {
                 });
                 match c.p1 {
                     0 => {
-                        let mut acc = pull::Fold::new(|| 7i64, |a: &mut i64, x: i64| *a = *a * 10 + x);
+                        let mut acc = pull::Fold::new(|| 7i64, |a: &mut i64, x: i64| *a = a.wrapping_mul(10).wrapping_add(x));
                         drive_future(pull::accumulate_all(&mut acc, &mut map, a), &sh, cap)
                     }
                     1 => {
-                        let mut acc = pull::Reduce::new(|a: &mut i64, x: i64| *a = *a * 10 + x);
+                        let mut acc = pull::Reduce::new(|a: &mut i64, x: i64| *a = a.wrapping_mul(10).wrapping_add(x));
                         drive_future(pull::accumulate_all(&mut acc, &mut map, a), &sh, cap)
                     }
                     _ => {
-                        let mut acc = pull::FoldFrom::new(|x: i64| x + 100, |a: &mut i64, x: i64| *a = *a * 10 + x);
+                        let mut acc = pull::FoldFrom::new(|x: i64| x + 100, |a: &mut i64, x: i64| *a = a.wrapping_mul(10).wrapping_add(x));
                         drive_future(pull::accumulate_all(&mut acc, &mut map, a), &sh, cap)
                     }
                 }
